@@ -962,3 +962,44 @@ func ErrorsOwn(res *fw.Result, seed int64) error {
 	}
 	return nil
 }
+
+// NotifyInOutageThenClose: a notify-tagged call is issued while the client is between connections (the redial is
+// being refused); then the client is closed.  The call must have returned, at the latest, when the closer has.
+func NotifyInOutageThenClose(res *fw.Result, seed int64) error {
+	run, closer, cancel, err := newRunner(seed+4711, 0, true, jsonrpc.WithPingInterval(0), jsonrpc.WithTimeout(0))
+	if err != nil {
+		return err
+	}
+	defer cancel()
+	defer run.E.Close()
+	sig := "notification in the reconnect window, then close"
+	base := nextToks(20)
+	if !run.Probe(base, 3*time.Second) {
+		return fmt.Errorf("notify-in-outage: warm-up failed")
+	}
+	run.E.PX.SetRefuse(true)
+	run.E.PX.Cut(0, "rst")
+	// until an ordinary call fails fast: the loss has been noticed
+	for w := 0; w < 400; w++ {
+		cctx, cc := context.WithTimeout(run.ctx, 200*time.Millisecond)
+		_, err := run.CL.Count(cctx, base+1)
+		cc()
+		if err != nil {
+			break
+		}
+		time.Sleep(5 * time.Millisecond)
+	}
+	noteDone := make(chan struct{})
+	go func() { defer close(noteDone); run.CL.Note(base + 2) }()
+	time.Sleep(50 * time.Millisecond)
+	scenClose(res, closer, sig)
+	select {
+	case <-noteDone:
+	case <-time.After(2 * time.Second):
+		res.Add(fw.Finding{Kind: "monitor", Signature: sig + " call blocked after close", Detail: "a notify-tagged call issued while the client was between connections has not returned 2s after the closer returned",
+			Case: map[string]interface{}{"scenario": "notify-in-outage-then-close"}})
+	}
+	res.Count("notify-in-outage-then-close")
+	res.Eval(true, []interface{}{"notify-in-outage-then-close"})
+	return nil
+}
